@@ -215,7 +215,7 @@ package vegeta
 // Metrics.Add: every aggregate is one fold step of its documented definition; `wf-*` is the
 // representation invariant of Metrics (established by the zero value, kept by Add and Close).
 //@ func (*Metrics).Add
-//@   property C10 C12
+//@   property C10 C12 C13
 //@   requires [non-nil] m != nil && r != nil
 //@   requires [wf-first] (m.Latencies.estimator == nil) == (m.Requests == 0)
 //@   requires [wf-earliest] (m.Requests == 0 ==> m.Earliest == zeroTime && m.Latest == zeroTime && m.End == zeroTime) && (m.Requests > 0 ==> m.Earliest > zeroTime)
@@ -344,7 +344,7 @@ package vegeta
 //@   inline
 
 //@ func NewRoundRobinDecoder$1
-//@   property C13 C16
+//@   property C13 C16 C17
 //@   uses rot_injective
 //@   returns (err)
 //@   requires [at-least-one] len(dec) >= 1
@@ -622,12 +622,17 @@ package vegeta
 //@   requires [reader-ready] rd.Reader != nil && !held(&rd.Mutex) && bytesleft(rd.Reader) >= 0
 //@   requires [package-initialised] ErrNilTarget != nil && ErrNoTargets != nil && ErrNoMethod != nil && ErrNoURL != nil
 //@   modifies *tgt, *rd.Reader
+//@   ghost rerr ref = 0
+//@   ghost lerr ref = 0
+//@   at call ReadBytes: ghost rerr = ref(result1)
+//@   at call Error: ghost lerr = ref(result)
 //@   ensures [nil-target-rejected] tgt == nil ==> err == ErrNilTarget
 //@   ensures [required-fields] err == nil ==> tgt.Method != "" && tgt.URL != ""
+//@   ensures [rejects-only-unreadable-malformed-or-incomplete-targets] err != nil && tgt != nil ==> err == ErrNoTargets || ref(err) == rerr || ref(err) == lerr || err == ErrNoMethod || err == ErrNoURL
 //@   ensures [own-header-map] err == nil ==> tgt.Header != nil && fresh(tgt.Header)
 //@   ensures [lock-released] !held(&rd.Mutex)
 //@   loop 1
-//@     invariant held(&rd.Mutex) && tgt != nil && tgt == old(tgt) && rd.Reader == old(rd.Reader) && rd.Reader != nil && tgt.Header == nil && bytesleft(rd.Reader) >= 0
+//@     invariant held(&rd.Mutex) && tgt != nil && tgt == old(tgt) && rd.Reader == old(rd.Reader) && rd.Reader != nil && tgt.Header == nil && bytesleft(rd.Reader) >= 0 && err == nil
 //@     decreases bytesleft(rd.Reader)
 //@   loop 2
 //@     invariant !held(&rd.Mutex) && tgt != nil && tgt == old(tgt) && tgt.Header != nil && fresh(tgt.Header) && tgt.Method != "" && tgt.URL != "" && header == old(header)
